@@ -9,6 +9,7 @@ package main
 import (
 	"fmt"
 	"math/rand"
+	"os"
 	"strings"
 )
 
@@ -256,7 +257,23 @@ func (p *c06Printer) trailer() {
 	}
 }
 
+// c06Retired: experiment knob (C06_RETIRED=class,class): classes treated as if their defect were repaired, i.e.
+// failures inside them are plain violations. Used to validate candidate patches on a scratch tree; it can only make
+// the check stricter.
+var c06Retired = func() map[string]bool {
+	m := map[string]bool{}
+	for _, c := range strings.Split(os.Getenv("C06_RETIRED"), ",") {
+		if c != "" {
+			m[c] = true
+		}
+	}
+	return m
+}()
+
 func c06AddClass(cs []string, c string) []string {
+	if c06Retired[c] {
+		return cs
+	}
 	for _, x := range cs {
 		if x == c {
 			return cs
